@@ -18,6 +18,19 @@ def classes(F, short):
     return cs
 
 
+def full_classes(F, short, need=("update",)):
+    """Instantiations of `short` whose members were all instantiated (explicit instantiation in the
+    witness TU), recognised by the presence of the named members."""
+    out = []
+    for c in F.classes(short):
+        names = {f["name"] for f in F.funcs(c)}
+        if all(n in names for n in need):
+            out.append(c)
+    if not out:
+        raise Broken("no full instantiation of %s in the facts" % short)
+    return out
+
+
 def strip_copy(e):
     """Peel copy-constructions, casts and default-arg wrappers."""
     while isinstance(e, dict):
@@ -66,6 +79,8 @@ def is_this_mem(e, field=None):
 
 def lit_value(e):
     e = strip_copy(e)
+    if isinstance(e, dict) and e.get("k") == "initlist" and len(e.get("elems", [])) == 1:
+        e = strip_copy(e["elems"][0])
     if isinstance(e, dict) and e.get("k") == "lit":
         return e["v"]
     if isinstance(e, dict) and e.get("k") == "static" and "v" in e:
